@@ -74,6 +74,9 @@ class expression_t;
 class symbol_t;
 class frame_t;
 
+#ifndef VERIF_NSID
+#define VERIF_NSID 4
+#endif
 #ifdef VERIF_TYPE_FLAT
 /* ---- flat type abstraction (lemma TYPE-IS) ------------------------------------------
    t.is(K)  <=>  K is the base kind, or K is one of the wrapper kinds on the chain.
@@ -113,24 +116,30 @@ public:
     bool konst, mut;
     mutable std::pair<verif_rng, verif_rng> range; /* abstract identities of the two range-bound expressions */
     int nrec;     /* number of record fields (abstract)                                  */
+    int sid0, sid1, sid2, sid3;   /* (no array member: CBMC cannot synthesise operator= for it) abstract identities (0..VERIF_NSID-1) of the sub-structures: field 0, field 1, array element, array size */
     int lab0, lab1; /* abstract identities of the first two record labels                */
-    type_t(): base(Constants::UNKNOWN), wrap(0), konst(false), mut(true), nrec(0), lab0(0), lab1(0) {}
-    type_t(kind_t k, const position_t&, size_t): base(k), wrap(0), konst(false), mut(true), nrec(0), lab0(0), lab1(0) {}
+    type_t(): base(Constants::UNKNOWN), wrap(0), konst(false), mut(true), nrec(0), lab0(0), lab1(0), self(0), sid0(0), sid1(0), sid2(0), sid3(0) {}
+    type_t(kind_t k, const position_t&, size_t): base(k), wrap(0), konst(false), mut(true), nrec(0), lab0(0), lab1(0), self(0), sid0(0), sid1(0), sid2(0), sid3(0) {}
     /* deep structure is abstract in the flat stub: sub-types are arbitrary (callers that
        recurse into them are answered by a contract, rule L12) */
     /* returns a reference: CBMC's front end cannot call a member on an rvalue's member */
     const std::pair<verif_rng, verif_rng>& get_range() const { return range; }
     uint32_t get_record_size() const { return (uint32_t)nrec; }
     int get_record_label(size_t i) const { return i == 0 ? lab0 : lab1; }
-    type_t get_sub(uint32_t) const { type_t t; return verif_any_type(); }
-    type_t get_sub() const { return verif_any_type(); }
-    type_t get_array_size() const { return verif_any_type(); }
+    /* sub-structures live in a pool of arbitrary flat types (set up once by the wrapper), so
+       they are deterministic functions of the parent */
+    type_t get_sub(uint32_t i) const;
+    type_t get_sub() const;
+    type_t get_array_size() const;
+    int self;     /* abstract identity of this type as a sub-structure (contracts of recursive callees depend only on it) */
     static type_t verif_any_type()
     {
         type_t t;
-        kind_t k; unsigned w; bool c, m; int a, b, n, l0, l1;
+        kind_t k; unsigned w; bool c, m; int a, b, n, l0, l1, s0, s1, s2, s3;
         __CPROVER_assume(k >= 0 && k <= Constants::DOUBLE_INV_GUARD && verif_wrap_bit(k) == 0);
         __CPROVER_assume(w <= VW_ALL && n >= 0 && n <= 2);
+        __CPROVER_assume(s0 >= 0 && s0 < VERIF_NSID && s1 >= 0 && s1 < VERIF_NSID && s2 >= 0 && s2 < VERIF_NSID && s3 >= 0 && s3 < VERIF_NSID);
+        t.sid0 = s0; t.sid1 = s1; t.sid2 = s2; t.sid3 = s3;
         t.base = k; t.wrap = w; t.konst = c; t.mut = m; t.range.first.id = a; t.range.second.id = b; t.nrec = n; t.lab0 = l0; t.lab1 = l1;
         return t;
     }
@@ -143,6 +152,16 @@ public:
     position_t get_position() const { return position_t(); }
 #include "type_preds.inc" /* REAL: include/utap/type.h inline predicates is_range() .. is_formula() */
 };
+extern type_t verif_tpool[VERIF_NSID];
+inline type_t type_t::get_sub(uint32_t i) const { int s = (i == 0) ? sid0 : sid1; type_t t = verif_tpool[s]; t.self = s; return t; }
+inline type_t type_t::get_sub() const { type_t t = verif_tpool[sid2]; t.self = sid2; return t; }
+inline type_t type_t::get_array_size() const { type_t t = verif_tpool[sid3]; t.self = sid3; return t; }
+inline void verif_tpool_havoc()
+{
+    /* unrolled (VERIF_NSID == 4): keeps the harnesses free of environment loops */
+    verif_tpool[0] = type_t::verif_any_type(); verif_tpool[1] = type_t::verif_any_type();
+    verif_tpool[2] = type_t::verif_any_type(); verif_tpool[3] = type_t::verif_any_type();
+}
 #endif /* VERIF_TYPE_FLAT */
 
 /* ---- symbols: small integer ids with side tables ------------------------------------ */
